@@ -279,6 +279,24 @@ def run(ctx):
     ctx.sample({'op': runs[0], 'go': got[0], 'spec': wants[0]})
     ctx.streams.append({'stream': 'roundtrip-run', 'cases': len(runs)})
 
+    # ---- several literals in one statement: each reads back as ITS text (a literal must not be disturbed by the tokens
+    # lexed after it — the parser holds a token while it reads ahead): 输出【‹lit1› ‹lit2› ‹lit3›】 without commas
+    adj_runs, adj_wants = [], []
+    pool = [(t, lit) for (qi, mode, t), lit in zip(texts, lits) if qi <= 1 and lit != '-']
+    for i in range(0, min(len(pool) - 2, ctx.n(3000, 60000)), 3):
+        (t1, l1), (t2, l2), (t3, l3) = pool[i], pool[i + 1], pool[i + 2]
+        sep = rng.choice(['20', '20.20', '20.2f.2a.4e00.2a.2f.20'])     # blank(s) or an inline /*一*/ comment (no line break: not allowed between items)
+        adj_runs.append('run 8f93.51fa.3010.%s.%s.%s.%s.%s.3011' % (l1, sep, l2, '20', l3))
+        hexs_ = [(''.join(chr(c) for c in t).encode('utf-8', 'surrogatepass').hex() or '-') for t in (t1, t2, t3)]
+        adj_wants.append('ok [s:%s,s:%s,s:%s] | -' % tuple(hexs_))
+    adj_got = lexgen.run_go_retry(ctx, adj_runs)
+    for c, g, w in zip(adj_runs, adj_got, adj_wants):
+        ctx.evaluations += 1
+        if g != w:
+            ctx.violation('adjacent-literals', c, g, w)
+        ctx.nontriv(c)
+    ctx.streams.append({'stream': 'adjacent-literals', 'cases': len(adj_runs)})
+
     # ---- string soup incl. Lines bookkeeping (Go vs model) ------------------------------------------------------------
     soup = list(dict.fromkeys(lexgen.gen_sources(rng, ctx.n(6000, 120000), 'strings', 12 if quick else 40)))
     lexgen.lex_compare(ctx, 'lex-strings', soup)
